@@ -6,6 +6,7 @@ import Katib.Drv.C19
 import Katib.Drv.C15
 import Katib.Drv.C10
 import Katib.Drv.C17
+import Katib.Drv.C13
 import Katib.Oracle.Sim
 open Katib Katib.Drv
 
@@ -19,6 +20,7 @@ def handle (toks : List String) : String :=
   | "C15" :: r => handleC15 r
   | "C10" :: r => handleC10 r
   | "C17" :: r => handleC17 r
+  | "C13" :: r => handleC13 r
   | _ => "bad-op"
 
 /-- oracle verdict for one `op => observed-output` line -/
@@ -31,6 +33,7 @@ def handleOracle (toks out : List String) : String :=
   | "C15" :: r => oracleLineC15 r out
   | "C10" :: r => oracleLineC10 r out
   | "C17" :: r => oracleLineC17 r out
+  | "C13" :: r => oracleLineC13 r out
   | _ => "bad-op"
 
 def splitArrow (toks : List String) : List String × List String :=
